@@ -122,6 +122,33 @@ def check_two_peeks(ck, P, rid, accname="gvt_accumulator"):
         ck.holds(rid, "accumulator-reset", resets[0].where, "reset to SIMTIME_MAX when a round starts", cfg)
     else:
         ck.violated(rid, "accumulator-reset", st.where, "the round start does not reset the accumulator to SIMTIME_MAX", cfg)
+    # ... and the round start is called only where a round starts: on the GVT_START control message, or from gvt_phase_run while the
+    # thread is idle.  A call while a round is open forgets every timestamp extracted since the round began.
+    n_calls = 0
+    for c in P.callers("gvt_start_processing"):
+        g = c.fn
+        if not g.file.startswith("src/"):
+            continue
+        n_calls += 1
+        inst = "round-start@%s" % g.name
+        if g.name == "control_msg_process" or g.file.endswith("distributed/control_msg.c"):
+            sc = g.cfg.switch_case_of(c)
+            want = P.enum_const("MSG_CTRL_GVT_START")
+            if sc and set(sc[1]) == {want}:
+                ck.holds(rid, inst, c.where, "called for the GVT_START control message only", cfg)
+            else:
+                ck.violated(rid, inst, c.where, "%s starts a round for control code(s) %s" % (g.name, sorted(sc[1]) if sc else "?"), cfg)
+        elif g.name == "gvt_phase_run":
+            paths, complete = Q.path_conditions(g, c)
+            idle = complete and paths and all(any(X.show(core) == "thread_phase" and t is False for core, t in conds) for conds in paths)
+            if idle:
+                ck.holds(rid, inst, c.where, "reached only while this thread's phase is idle", cfg)
+            else:
+                ck.violated(rid, inst, c.where, "gvt_phase_run can start a round while the thread is still inside one", cfg)
+        else:
+            ck.violated(rid, inst, c.where, "%s restarts the round: the accumulator is reset to SIMTIME_MAX while a round is open, so the timestamps of everything extracted "
+                        "since the round began — and of the messages those events sent, possibly still in flight — are no longer covered by the minimum" % g.name, cfg)
+    ck.expect(rid, n_calls, 2, "call sites of gvt_start_processing")
 
 
 # --------------------------------------------------------------------------------------------------------------
